@@ -118,3 +118,21 @@ def check_valid(hyps, goal, use_cvc5=True, timeout_ms=None, both=False):
             v.backend = 'z3+cvc5' if res == 'unsat' else 'z3'
             v.ms += ms
     return v
+
+
+def check_sat_both(constraints):
+    """satisfiability with cvc5 as second opinion when z3 answers unknown (status only)"""
+    v = check_sat(constraints)
+    if v.status != 'unknown':
+        return v
+    sol = z3.Solver()
+    for c in constraints:
+        sol.add(c)
+    try:
+        smt2 = sol.to_smt2().replace('(check-sat)', '')
+        res, ms = _cvc5_check(smt2, CVC5_TIMEOUT_S)
+    except Exception:
+        res, ms = 'unknown', 0.0
+    if res in ('sat', 'unsat'):
+        return Verdict(res, 'cvc5', v.ms + ms)
+    return Verdict('unknown', 'z3+cvc5', v.ms + ms, reason=v.reason)
